@@ -23,9 +23,12 @@ func sp(s string) *string { return &s }
 func nss() []*namespace.Namespace {
 	return []*namespace.Namespace{{Name: "n", Relations: []ast.Relation{
 		{Name: "a"}, {Name: "b"},
+		// operand order: negation first, traverse before includes (no "cheapest first" order)
 		{Name: "p", SubjectSetRewrite: &ast.SubjectSetRewrite{Operation: ast.OperatorAnd, Children: ast.Children{
-			&ast.ComputedSubjectSet{Relation: "a"},
-			&ast.InvertResult{Child: &ast.ComputedSubjectSet{Relation: "b"}}}}},
+			&ast.InvertResult{Child: &ast.ComputedSubjectSet{Relation: "b"}},
+			&ast.SubjectSetRewrite{Operation: ast.OperatorOr, Children: ast.Children{
+				&ast.TupleToSubjectSet{Relation: "a", ComputedSubjectSetRelation: "a"},
+				&ast.ComputedSubjectSet{Relation: "a"}}}}}},
 	}}}
 }
 
